@@ -458,3 +458,117 @@ pub fn c11x_witness() {
     assert!(w.mem[lo] == src[0]);
     assert!(false, "VACUITY_WITNESS");
 }
+
+// ------------------------------------------------------------------------------------------ UninitSlice and spare_capacity_mut (C02, C11)
+// @h props=C11,C02 tier=quick group=bulk note=UninitSlice:new/uninit/from_raw_parts_mut/len/write_byte/copy_from_slice/index_ranges/as_mut_ptr/as_uninit_slice_mut_stay_inside_the_window
+#[kani::proof]
+#[kani::unwind(8)]
+#[kani::stub(core::slice::index::slice_index_fail, stub_slice_index_fail)]
+pub fn c11x_uninit_slice_api() {
+    let mut mem = [G; N];
+    let lo = any_len(N);
+    let cap = any_len(N - lo);
+    let base = mem.as_mut_ptr();
+    let how: u8 = kani::any();
+    let s: &mut UninitSlice = match how % 3 {
+        0 => UninitSlice::new(&mut mem[lo..lo + cap]),
+        1 => {
+            let mu: &mut [core::mem::MaybeUninit<u8>; N] = unsafe { &mut *(&mut mem as *mut [u8; N] as *mut [core::mem::MaybeUninit<u8>; N]) };
+            UninitSlice::uninit(&mut mu[lo..lo + cap])
+        }
+        _ => unsafe { UninitSlice::from_raw_parts_mut(base.add(lo), cap) },
+    };
+    assert!(s.len() == cap);
+    assert!(s.as_mut_ptr() == unsafe { base.add(lo) });
+    assert!(unsafe { s.as_uninit_slice_mut() }.len() == cap);
+    let op: u8 = kani::any();
+    let v: u8 = kani::any();
+    let (mut wlo, mut whi) = (0usize, 0usize); // written range relative to the window
+    match op % 3 {
+        0 => {
+            kani::assume(cap > 0);
+            let i = any_below(cap);
+            s.write_byte(i, v);
+            wlo = i;
+            whi = i + 1;
+        }
+        1 => {
+            // sub-range by index, then fill it
+            let a = any_len(N);
+            let b = any_len(N);
+            kani::assume(a <= b && b <= cap);
+            let sub = &mut s[a..b];
+            assert!(sub.len() == b - a);
+            let src = [v; N];
+            sub.copy_from_slice(&src[..b - a]);
+            wlo = a;
+            whi = b;
+        }
+        _ => {
+            let src = [v; N];
+            s.copy_from_slice(&src[..cap]);
+            whi = cap;
+        }
+    }
+    let g = any_below(N);
+    if g >= lo + wlo && g < lo + whi {
+        assert!(mem[g] == v);
+    } else {
+        assert!(mem[g] == G);
+    }
+    end_reached!();
+}
+
+// @h props=C11,C13,C02 tier=quick group=bulk allow=assertion.failed:.index.<.self.len.*in.function.bytes::buf::UninitSlice::write_byte|placeholder.message.*in.function.core::panicking::assert_failed must_fail=. note=UninitSlice:write_byte_out_of_range_and_copy_from_slice_length_mismatch_must_panic
+#[kani::proof]
+#[kani::unwind(8)]
+#[kani::stub(core::slice::index::slice_index_fail, stub_slice_index_fail)]
+pub fn c11x_uninit_slice_ooc() {
+    let mut mem = [G; N];
+    let cap = any_len(N - 1);
+    unsafe { observe_guards(mem.as_ptr(), N, 0, 0) };
+    let s = UninitSlice::new(&mut mem[1..1 + cap]);
+    let which: bool = kani::any();
+    end_reached!();
+    if which {
+        let i: usize = kani::any();
+        kani::assume(i >= cap);
+        s.write_byte(i, 7);
+    } else {
+        let src = [7u8; N];
+        let l = any_len(N);
+        kani::assume(l != cap);
+        s.copy_from_slice(&src[..l]);
+    }
+    assert!(false, "RETURNED: out-of-range UninitSlice access returned");
+}
+
+// @h props=C11,C02,C04 tier=quick group=bulk note=BytesMut::spare_capacity_mut_is_exactly_the_bytes_between_len_and_capacity;is_empty
+#[kani::proof]
+#[kani::unwind(8)]
+#[kani::stub(core::slice::index::slice_index_fail, stub_slice_index_fail)]
+pub fn c11x_spare_capacity_mut() {
+    let a: [u8; 3] = kani::any();
+    let arc: bool = kani::any();
+    let mut m = if arc { mk_bm(MRep::ArcUnique, &a) } else { mk_bm(MRep::VecOff, &a) };
+    let k = any_len(3);
+    m.truncate(k);
+    assert!(m.is_empty() == (k == 0));
+    let cap = m.capacity();
+    let base = m.as_ptr();
+    let sp = m.spare_capacity_mut();
+    assert!(sp.len() == cap - k);
+    assert!(sp.as_ptr() as *const u8 == unsafe { base.add(k) });
+    let v: u8 = kani::any();
+    if sp.len() > 0 {
+        sp[0].write(v);
+        unsafe { m.set_len(k + 1) };
+        assert!(m[k] == v);
+        if k > 0 {
+            let i = any_below(k);
+            assert!(m[i] == a[i]);
+        }
+    }
+    core::mem::forget(m);
+    end_reached!();
+}
